@@ -88,6 +88,64 @@ def inv_violation(s, res, env):
     return None
 
 
+def closure_oracle(ctx, s, res, rec, case):
+    """the closure clause, evaluated on the real run: when every product asked for during the request (successful
+    branches and failed optional ones alike) was decided at one version, nothing reachable was set up before, and
+    the request succeeded, the products set up among the reachable ones are exactly the dependency closure -
+    required lines, plus optional lines whose product sets up - each at that version.  (No -j line in the tables
+    read, no --just / --max-depth / --keep: the conditions of closure_exact in coq/Props/C01.v.)"""
+    rq = rec["request"]
+    if not rec["ok"] or not rq.get("fwd", True) or rq.get("keep") or rq.get("just") or rq.get("max_depth") is not None:
+        return
+    D = {}
+    for n, v in zip(rec["decision_names"], rec["decisions"]):
+        if n in D and D[n] != v:
+            ctx.bump("closure-oracle:conflicting-versions")
+            return
+        D[n] = v
+    touched = S.touched_names(res, rq["name"])
+    before = S.setup_records(rec["before"])
+    if any(n in before for n in touched):
+        ctx.bump("closure-oracle:something-set-up-before")
+        return
+
+    def lines(n):
+        out = []
+        for a in res["parsed"]["%s %s" % (n, D[n])]["actions"]:
+            f = a.split(",")
+            if f[0] == "S":
+                out.append((f[1] == "1", common.dec(f[2]), f[3] == "1"))
+        return out
+    memo = {}
+
+    def sets_up(n):
+        if n not in memo:
+            memo[n] = False if D.get(n) is None else all(sets_up(x) for (opt, x, j) in lines(n) if not opt)
+        return memo[n]
+    closure, todo = set(), [rq["name"]]
+    while todo:
+        n = todo.pop()
+        if n in closure:
+            continue
+        closure.add(n)
+        for (opt, x, j) in lines(n):
+            if j:
+                ctx.bump("closure-oracle:-j-line")
+                return
+            if sets_up(x):
+                todo.append(x)
+    ctx.bump("closure-oracle:evaluated")
+    if len(closure) > 2:
+        ctx.bump("closure-oracle:evaluated-3-or-more-products")
+    after = S.setup_records(rec["after"])
+    expected = {n: D[n] for n in closure}
+    observed = {n: v for n, v in after.items() if n in touched}
+    if expected != observed:
+        ctx.fail("closure", case, expected=expected, observed=observed,
+                 what="setup %s: the products set up among the reachable ones are %r, the dependency closure at the "
+                      "decided versions is %r" % (rq["name"], observed, expected))
+
+
 def oracle(ctx, s, res):
     rec = res["records"][-1]
     rq = rec["request"]
@@ -134,18 +192,35 @@ def oracle(ctx, s, res):
         ctx.bump("invariant-held-before")
         if bad:
             ctx.fail("invariant", case, expected="consistent environment", observed=bad, what=bad)
+            return
+    # the closure clause, on every request of the scenario
+    for r in res["records"]:
+        closure_oracle(ctx, s, res, r, case)
 
 
 def run(ctx):
     ctx.rule = ("random worlds (3-5 products x 1-3 versions, acyclic tables with path/envSet/alias commands and required/"
                 "optional/versioned/expression/-j dependencies, diamonds with conflicting versions, stack path with or "
                 "without a blank), 0-3 prior real setups (so other versions of the same products are already set up), "
-                "final request bare or with an explicit version; non-trivial = the final request succeeds; distinct = "
-                "distinct (world, requests)")
+                "final request bare or with an explicit version; then scenarios for the composed model: the other line "
+                "forms (bracketed expression alone, relational version, -j with a version) and requests carrying "
+                "--keep / --just / --max-depth / unsetup anywhere in the sequence; non-trivial = the final request "
+                "succeeds; distinct = distinct (world, requests)")
     ctx.trusted_base = common.COMMON_TRUSTED + [
-        "the version resolver is outside Model/Setup.v: the decisions of the real resolver (captured by a spy) are fed "
-        "to the model; C03 models the resolver", "tables enter the model as the actions the real parser derives (C11)"]
+        "two model runs per request: Model/Setup.v fed with the decisions of the real resolver (captured by a spy), and "
+        "the composed model Model/SetupFull.v (setup + the resolver of C03, alreadySetupProducts, per-line VRO) fed with "
+        "NO decisions - world, per-line request information as the real Action.processArgs returns it, chain files as "
+        "the real database reports them, environment before; compared: success, environment, aliases, and every "
+        "version decided along the way",
+        "tables enter the models as the actions the real parser derives (C11)",
+        "the composed model runs with the dotted-numeric comparator of Model/Resolve.v (C10 models the real one); the "
+        "generated version names 1.0 2.0 3.0 9.9 and one-term expressions are inside that fragment",
+        "harness/setupsim.py line_infos / model_line_full: encoding of processArgs results and product tags"]
     ctx.assumptions = ["one stack, one flavor, declared products only (no setup -r, no --force)",
+                       "composed model: dependency lines of the forms name / name version / name version [expr] / "
+                       "name [expr] / name relational-expression, with or without -j; no -t, --vro, -k on a line; the "
+                       "shipped configuration (Generated/Config.v); closure_exact: conflict_free, no --max-depth, "
+                       "no --just, no -j line, no keep in the VRO, wf_db and a total order on the version names",
                        "WF2 of Proofs/SetupInv.v for the theorems (contributions of different names and versions apart, "
                        "acyclic dependency graph over names, single-word names and versions)"]
     ctx.check_theorems()
